@@ -199,6 +199,22 @@ def WF (q : IRQuery) : Bool :=
   wfEndpointsC q.rootComponent && wfTagsC [] q.rootComponent && wfImportsC q.rootComponent &&
   wfVarsC q.variables q.rootComponent
 
+/-! ### outputs (not a clause of C11; what `IndexedQuery::try_from` also checks) -/
+
+mutual
+/-- every output of a component is read at one of the component's own vertices -/
+def wfOutputsC : Component → Bool
+  | .mk _ vs _ fs os => os.all (fun o => (vertexVids vs).contains o.vid) && wfOutputsF fs
+def wfOutputsF : List Fold → Bool
+  | [] => true
+  | .mk _ _ _ _ _ c _ _ _ :: rest => wfOutputsC c && wfOutputsF rest
+end
+
+/-- outputs are read at vertices of their own component, and no output name (fold-count outputs
+included) is used twice in the whole query -/
+def outputsOk (q : IRQuery) : Bool :=
+  wfOutputsC q.rootComponent && Frontend.namesDistinct (Frontend.outputNames q.rootComponent)
+
 /-! ### `IndexedQuery::try_from` -/
 
 /-- The maps `vids`, `eids`, `outputs` (their key sets) built by `add_data_from_component`. -/
